@@ -312,16 +312,56 @@ func ambientRule(r *Run, rule string) {
 // ---- R4: cache ----------------------------------------------------------------
 
 func (w *World) cacheVar() *types.Var {
-	// the package-level map[string]*Template of the root package
+	v, _, _ := w.cacheVars()
+	return v
+}
+
+// cacheVars: the map[string]*Template of the root package that caches parsed templates -- a package-level
+// variable, or the field of an unexported struct type of the package of which a package-level variable
+// holds (a pointer to) the one instance -- together with that holder variable and struct type (nil for a plain variable).
+func (w *World) cacheVars() (cache *types.Var, holder *types.Var, holderT *types.Named) {
+	isCacheMap := func(t types.Type) bool {
+		mt, ok := t.Underlying().(*types.Map)
+		return ok && namedIs(mt.Elem(), modPath, "Template")
+	}
 	sc := w.Pkgs[""].Types.Scope()
 	for _, n := range sc.Names() {
-		if v, ok := sc.Lookup(n).(*types.Var); ok {
-			if mt, ok := v.Type().Underlying().(*types.Map); ok && namedIs(mt.Elem(), modPath, "Template") {
-				return v
+		if v, ok := sc.Lookup(n).(*types.Var); ok && isCacheMap(v.Type()) {
+			return v, nil, nil
+		}
+	}
+	for _, n := range sc.Names() {
+		v, ok := sc.Lookup(n).(*types.Var)
+		if !ok {
+			continue
+		}
+		t := v.Type()
+		if pt, isPtr := t.(*types.Pointer); isPtr {
+			t = pt.Elem()
+		}
+		nt, isNamed := t.(*types.Named)
+		if !isNamed || nt.Obj().Pkg() != w.Pkgs[""].Types || nt.Obj().Exported() {
+			continue
+		}
+		st, isStruct := nt.Underlying().(*types.Struct)
+		if !isStruct {
+			continue
+		}
+		for i := 0; i < st.NumFields(); i++ {
+			if isCacheMap(st.Field(i).Type()) {
+				return st.Field(i), v, nt
 			}
 		}
 	}
-	return nil
+	return nil, nil, nil
+}
+
+// varOf: the variable an identifier or a field selector denotes.
+func varOf(info *types.Info, e ast.Expr) types.Object {
+	if _, fld := fieldOf(info, e); fld != nil {
+		return fld
+	}
+	return objOf(info, e)
 }
 
 func cacheRule(r *Run, rule string) {
@@ -336,7 +376,7 @@ func cacheRule(r *Run, rule string) {
 	for _, f := range w.Funcs("") {
 		var uses []*ast.IndexExpr
 		inspectBody(f.Decl.Body, false, func(n ast.Node) bool {
-			if ix, ok := n.(*ast.IndexExpr); ok && objOf(info, ix.X) == cv {
+			if ix, ok := n.(*ast.IndexExpr); ok && varOf(info, ix.X) == types.Object(cv) {
 				uses = append(uses, ix)
 			}
 			return true
@@ -369,7 +409,7 @@ func cacheRule(r *Run, rule string) {
 				r.Bad(rule, f.Name(), con, w.Pos(ix.Pos()), "the template cache must be keyed by the function's unmodified input parameter")
 			}
 		}
-		if f.Decl.Name.Name == "CacheSet" || newTpl == nil {
+		if newTpl == nil {
 			continue
 		}
 		// constructor calls in the caching function use the same parameter
@@ -392,8 +432,28 @@ func cacheRule(r *Run, rule string) {
 			}
 			for _, l := range as.Lhs {
 				ix, ok := l.(*ast.IndexExpr)
-				if !ok || objOf(info, ix.X) != cv {
+				if !ok || varOf(info, ix.X) != types.Object(cv) {
 					continue
+				}
+				// a template the caller supplies (CacheSet and what it delegates to): no parse of this function's to check
+				if len(as.Lhs) == len(as.Rhs) {
+					isParam := false
+					for li, l2 := range as.Lhs {
+						if l2 != l {
+							continue
+						}
+						if o := objOf(info, as.Rhs[li]); o != nil {
+							for pi := 0; pi < sig.Params().Len(); pi++ {
+								if sig.Params().At(pi) == o {
+									isParam = true
+								}
+							}
+						}
+					}
+					if isParam && len(callsTo(info, f.Decl.Body, newTpl)) == 0 {
+						r.Ok(rule, f.Name(), "store "+short(w.Fset, as), w.Pos(as.Pos()), "the template is the caller's (a parameter): stored as given")
+						continue
+					}
 				}
 				if storeAfterErrReturn(w, info, f, as) {
 					r.Ok(rule, f.Name(), "store "+short(w.Fset, as), w.Pos(as.Pos()), "preceded by 'if err != nil { return }' on the constructor's error")
@@ -521,6 +581,19 @@ func globalStoreRule(r *Run, rule string) {
 					}
 					if stdReadOnly(pkg, name) {
 						break // the standard library's searches and comparisons only read what they are handed
+					}
+					// the template cache handed to a method of its own type: what the method does with it is judged where
+					// it does it (every access under the cache's mutex, C14.R2; keyed by the input, C13.R4)
+					if _, holder, holderT := w.cacheVars(); holderT != nil && holder != nil {
+						if g := cc.StaticCallee(); g != nil && g.Signature.Recv() != nil {
+							rt := g.Signature.Recv().Type()
+							if pt, isPtr := rt.(*types.Pointer); isPtr {
+								rt = pt.Elem()
+							}
+							if types.Identical(rt, holderT) && len(args) > 0 && addrBase(args[0], 0) == "global:plush."+holder.Name() {
+								args = args[1:]
+							}
+						}
 					}
 					if pkg == "maps" && name == "Copy" && len(args) == 2 {
 						args = args[:1] // only the destination is written
@@ -761,4 +834,18 @@ func stdReadOnly(pkg, name string) bool {
 		return !strings.HasPrefix(name, "(") && !strings.HasPrefix(name, "Append") && !strings.HasPrefix(name, "Encode")
 	}
 	return false
+}
+
+// callsTo: the calls of fn (nil: none) in body.
+func callsTo(info *types.Info, body ast.Node, fn *FuncInfo) []*ast.CallExpr {
+	var out []*ast.CallExpr
+	if fn == nil {
+		return nil
+	}
+	for _, c := range callsIn(body, false) {
+		if calleeOf(info, c) == fn.Obj {
+			out = append(out, c)
+		}
+	}
+	return out
 }
